@@ -1,4 +1,4 @@
-package main
+package fg
 
 import (
 	"bytes"
@@ -20,7 +20,7 @@ type File struct {
 	Src  []byte
 }
 
-func parseFile(repo, rel string) (*File, error) {
+func ParseFile(repo, rel string) (*File, error) {
 	p := filepath.Join(repo, rel)
 	src, err := os.ReadFile(p)
 	if err != nil {
@@ -34,8 +34,8 @@ func parseFile(repo, rel string) (*File, error) {
 	return &File{Path: rel, Fset: fset, AST: f, Src: src}, nil
 }
 
-// parseDir parses every non-test .go file of a package directory.
-func parseDir(repo, rel string) ([]*File, error) {
+// ParseDir parses every non-test .go file of a package directory.
+func ParseDir(repo, rel string) ([]*File, error) {
 	ents, err := os.ReadDir(filepath.Join(repo, rel))
 	if err != nil {
 		return nil, err
@@ -46,7 +46,7 @@ func parseDir(repo, rel string) ([]*File, error) {
 		if e.IsDir() || !strings.HasSuffix(n, ".go") || strings.HasSuffix(n, "_test.go") {
 			continue
 		}
-		f, err := parseFile(repo, filepath.Join(rel, n))
+		f, err := ParseFile(repo, filepath.Join(rel, n))
 		if err != nil {
 			return nil, err
 		}
@@ -55,16 +55,16 @@ func parseDir(repo, rel string) ([]*File, error) {
 	return fs, nil
 }
 
-func (f *File) text(n ast.Node) string {
+func (f *File) Text(n ast.Node) string {
 	var b bytes.Buffer
 	printer.Fprint(&b, f.Fset, n)
 	return b.String()
 }
 
-func (f *File) line(n ast.Node) int { return f.Fset.Position(n.Pos()).Line }
+func (f *File) Line(n ast.Node) int { return f.Fset.Position(n.Pos()).Line }
 
-// funcDecl finds a function or method (recv may be "" or "T"/"*T" base name).
-func (f *File) funcDecl(recv, name string) *ast.FuncDecl {
+// FuncDecl finds a function or method (recv may be "" or "T"/"*T" base name).
+func (f *File) FuncDecl(recv, name string) *ast.FuncDecl {
 	for _, d := range f.AST.Decls {
 		fd, ok := d.(*ast.FuncDecl)
 		if !ok || fd.Name.Name != name {
@@ -90,23 +90,23 @@ func (f *File) funcDecl(recv, name string) *ast.FuncDecl {
 	return nil
 }
 
-func findFunc(files []*File, recv, name string) (*File, *ast.FuncDecl) {
+func FindFunc(files []*File, recv, name string) (*File, *ast.FuncDecl) {
 	for _, f := range files {
-		if fd := f.funcDecl(recv, name); fd != nil {
+		if fd := f.FuncDecl(recv, name); fd != nil {
 			return f, fd
 		}
 	}
 	return nil, nil
 }
 
-// constEnv: package-level constant expressions by name, for evaluation.
-type constEnv struct {
-	exprs map[string]ast.Expr
-	pkgs  map[string]*constEnv // imported package alias -> env (for pkg.Const)
+// ConstEnv: package-level constant expressions by name, for evaluation.
+type ConstEnv struct {
+	Exprs map[string]ast.Expr
+	Pkgs  map[string]*ConstEnv // imported package alias -> env (for pkg.Const)
 }
 
-func newConstEnv(files []*File) *constEnv {
-	env := &constEnv{exprs: map[string]ast.Expr{}, pkgs: map[string]*constEnv{}}
+func NewConstEnv(files []*File) *ConstEnv {
+	env := &ConstEnv{Exprs: map[string]ast.Expr{}, Pkgs: map[string]*ConstEnv{}}
 	for _, f := range files {
 		for _, d := range f.AST.Decls {
 			gd, ok := d.(*ast.GenDecl)
@@ -117,7 +117,7 @@ func newConstEnv(files []*File) *constEnv {
 				vs := s.(*ast.ValueSpec)
 				for i, n := range vs.Names {
 					if i < len(vs.Values) {
-						env.exprs[n.Name] = vs.Values[i]
+						env.Exprs[n.Name] = vs.Values[i]
 					}
 				}
 			}
@@ -130,13 +130,13 @@ var timeUnits = map[string]int64{
 	"Nanosecond": 1, "Microsecond": 1e3, "Millisecond": 1e6, "Second": 1e9, "Minute": 60e9, "Hour": 3600e9,
 }
 
-// evalInt evaluates an integer constant expression (ints, + - * / %, parens, time.X units,
-// named package constants, pkg.Const through env.pkgs, conversions like int64(x)/time.Duration(x)).
-func (env *constEnv) evalInt(e ast.Expr) (int64, error) {
+// EvalInt evaluates an integer constant expression (ints, + - * / %, parens, time.X units,
+// named package constants, pkg.Const through env.Pkgs, conversions like int64(x)/time.Duration(x)).
+func (env *ConstEnv) EvalInt(e ast.Expr) (int64, error) {
 	return env.eval(e, 0)
 }
 
-func (env *constEnv) eval(e ast.Expr, depth int) (int64, error) {
+func (env *ConstEnv) eval(e ast.Expr, depth int) (int64, error) {
 	if depth > 50 {
 		return 0, fmt.Errorf("const evaluation too deep")
 	}
@@ -199,7 +199,7 @@ func (env *constEnv) eval(e ast.Expr, depth int) (int64, error) {
 			return a >> uint(b), nil
 		}
 	case *ast.Ident:
-		if ex, ok := env.exprs[x.Name]; ok {
+		if ex, ok := env.Exprs[x.Name]; ok {
 			return env.eval(ex, depth+1)
 		}
 		return 0, fmt.Errorf("unknown identifier %s", x.Name)
@@ -224,8 +224,8 @@ func (env *constEnv) eval(e ast.Expr, depth int) (int64, error) {
 					return 1<<16 - 1, nil
 				}
 			}
-			if sub, ok := env.pkgs[p.Name]; ok {
-				if ex, ok := sub.exprs[x.Sel.Name]; ok {
+			if sub, ok := env.Pkgs[p.Name]; ok {
+				if ex, ok := sub.Exprs[x.Sel.Name]; ok {
 					return sub.eval(ex, depth+1)
 				}
 			}
@@ -252,14 +252,14 @@ func (env *constEnv) eval(e ast.Expr, depth int) (int64, error) {
 
 // calls returns every call expression under n whose callee "name" matches (pkg.Func, recv.Method or Func:
 // matching is on the final selector / identifier name).
-func callsNamed(n ast.Node, name string) []*ast.CallExpr {
+func CallsNamed(n ast.Node, name string) []*ast.CallExpr {
 	var out []*ast.CallExpr
 	ast.Inspect(n, func(m ast.Node) bool {
 		c, ok := m.(*ast.CallExpr)
 		if !ok {
 			return true
 		}
-		if calleeName(c) == name {
+		if CalleeName(c) == name {
 			out = append(out, c)
 		}
 		return true
@@ -267,7 +267,7 @@ func callsNamed(n ast.Node, name string) []*ast.CallExpr {
 	return out
 }
 
-func calleeName(c *ast.CallExpr) string {
+func CalleeName(c *ast.CallExpr) string {
 	switch f := c.Fun.(type) {
 	case *ast.Ident:
 		return f.Name
@@ -281,8 +281,8 @@ func calleeName(c *ast.CallExpr) string {
 	return ""
 }
 
-// leanStr renders a Go string as a Lean string literal.
-func leanStr(s string) string {
+// LeanStr renders a Go string as a Lean string literal.
+func LeanStr(s string) string {
 	var b strings.Builder
 	b.WriteByte('"')
 	for _, r := range []byte(s) {
@@ -295,7 +295,7 @@ func leanStr(s string) string {
 			b.WriteString("\\n")
 		case r == '\t':
 			b.WriteString("\\t")
-		case r < 0x20 || r >= 0x7f:
+		case r < 0x20 || r == 0x7f:
 			fmt.Fprintf(&b, "\\x%02x", r)
 		default:
 			b.WriteByte(r)
@@ -305,7 +305,7 @@ func leanStr(s string) string {
 	return b.String()
 }
 
-func leanInt(v int64) string {
+func LeanInt(v int64) string {
 	if v < 0 {
 		return fmt.Sprintf("(%d)", v)
 	}
